@@ -127,8 +127,13 @@ Inductive wevent :=
 | EVisitorPayload (v : vcfg) (d : dir) (c : Z).
 
 (* ---------- client dial plan and server sniff ---------- *)
+Definition is_quic (c : wcfg) : bool := String.eqb (ct_protocol (w_client c)) "quic".
+
+(* client/connector.go: Open() handles quic on its own, every other protocol goes through realConnect *)
 Definition plan (c : wcfg) : dial_result :=
-  real_connect (fun _ _ => w_pair_ok c) (fun _ => w_read_ok c) (w_client c) (w_server_addr c).
+  if is_quic c
+  then open_quic (fun _ _ => w_pair_ok c) (fun _ => w_read_ok c) (w_client c) (w_server_addr c)
+  else real_connect (fun _ _ => w_pair_ok c) (fun _ => w_read_ok c) (w_client c) (w_server_addr c).
 
 Definition conn_tls (c : wcfg) : bool := plan_has_tls (plan c).
 
@@ -145,14 +150,18 @@ Definition first_byte (c : wcfg) : Z :=
   | _ => if from_ptr (ct_tcp_mux (w_client c)) then 0 else 111
   end.
 
-Definition sniffed (c : wcfg) : Sniff.out := Sniff.sniff (w_force c) (byte_of_Z (first_byte c)).
+(* HandleListener sniffs the first byte on the tcp, kcp, websocket and tls listeners;
+   HandleQUICListener hands every stream to handleConnection without any sniff (None) *)
+Definition sniffed (c : wcfg) : option Sniff.out :=
+  if is_quic c then None else Some (Sniff.sniff (w_force c) (byte_of_Z (first_byte c))).
 
 (* the server goes on to interpret protocol messages on this connection.  wss is terminated by
    nobody on frps: after TLS it reads "GET " where a message type / yamux header is expected. *)
 Definition accepted (c : wcfg) : bool :=
   match plan c with
   | DialErr => false
-  | DialPlan _ _ _ => negb (Sniff.is_err (sniffed c)) && negb (is_wss c)
+  | DialPlan _ _ _ =>
+      match sniffed c with Some o => negb (Sniff.is_err o) | None => true end && negb (is_wss c)
   end.
 
 (* bytes the dial hooks write when a connection is opened, outermost layer first *)
@@ -163,6 +172,7 @@ Fixpoint open_items (ls : list layer) (under_tls : bool) : list term :=
   | LHeadByte :: r => wrap (TRaw "head-byte") :: open_items r under_tls
   | LWebsocket :: r => wrap (TRaw "websocket-upgrade") :: open_items r under_tls
   | LTls :: r => open_items r true
+  | LQuic :: r => open_items r true
   end.
 
 Definition conn_open (c : wcfg) : list term := open_items (plan_layers (plan c)) false.
